@@ -7,12 +7,21 @@ import (
 	"regexp"
 	"strings"
 	"sync"
+	"syscall"
 	"time"
 
 	"verifharness/core"
 )
 
 type P struct{}
+
+// A corrupted Golomb delta (e.g. from a data race in a seeded change) makes the code under test write
+// unary runs of astronomic length; cap the address space so that the harness dies with an
+// out-of-memory error (reported by ./check as a broken correspondence) instead of taking the machine down.
+func init() {
+	lim := syscall.Rlimit{Cur: 24 << 30, Max: 24 << 30}
+	_ = syscall.Setrlimit(syscall.RLIMIT_AS, &lim)
+}
 
 func (P) ID() string { return "C20" }
 
